@@ -160,7 +160,8 @@ def run_sequence(lib, p11drv, opdrv, seed, idx):
     rng = random.Random(seed * 7919 + idx)
     s = gen_sequence(rng)
     d = vlib.mktmp()
-    conf = vlib.write_conf(d)
+    from p11i import P11 as _P11b
+    conf = vlib.write_conf(d, backend=_P11b.DEFAULT_BACKEND)
     env = dict(os.environ)
     env['SOFTHSM2_CONF'] = conf
     from p11i import P11 as _P11
